@@ -6,7 +6,7 @@
  *   selfmap <chk offsets "off:class,..."> <set offsets>   classes: L load, X cmpxchg, C compare, S store
  *   selfrun <nthreads> <ncalls> <aes result> <sha result> <entry: t|k> <schedule digits...>
  *
- *   selfstall <nthreads> <stall ms> <aes result> <sha result> <entry: t|k>
+ *   selfstall <nthreads> <stall ms> <aes result> <sha result> <entry: t|k|a|b|c|g|m> [<aes result of re-runs> <sha result of re-runs>]
  *       free-running variant (no single-stepping): thread 0 makes the first call and is held inside the AES stage for
  *       <stall ms>; the other threads make their first call meanwhile (they really spin), one more call follows the end.
  *       Covers schedules in which a waiter polls millions of times, which the stepped scheduler cannot reach.
@@ -52,6 +52,8 @@ static pthread_mutex_t ev_mx = PTHREAD_MUTEX_INITIALIZER;
 static sem_t inside;
 static volatile int aes_entries;
 static int stall_ms;
+static int res_aes2, res_sha2;    /* results of runs after the first (a transient fault: first run fails, a re-run would pass) */
+static __thread int my_run;
 
 static void
 stop_point(void)
@@ -158,11 +160,13 @@ __wrap__aes_self_tests(void)
                 return __real__aes_self_tests();
         if (free_mode) {
                 log_ev("RunAes", me, NULL);
-                if (__sync_fetch_and_add(&aes_entries, 1) == 0) {
+                my_run = __sync_fetch_and_add(&aes_entries, 1);
+                if (my_run == 0) {
                         sem_post(&inside);
                         usleep((useconds_t) stall_ms * 1000);
                 }
-                return res_aes == -9 ? __real__aes_self_tests() : res_aes;
+                int ra = my_run == 0 ? res_aes : res_aes2;
+                return ra == -9 ? __real__aes_self_tests() : ra;
         }
         stop_point();
         log_ev("RunAes", me, NULL);
@@ -176,7 +180,8 @@ __wrap__sha_self_tests(void)
         if (!free_mode)
                 stop_point();
         log_ev("RunSha", me, NULL);
-        int r = res_sha == -9 ? __real__sha_self_tests() : res_sha;
+        int rs = (free_mode && my_run > 0) ? res_sha2 : res_sha;
+        int r = rs == -9 ? __real__sha_self_tests() : rs;
         if (free_mode)
                 pthread_mutex_lock(&ev_mx);
         ev_begin("TestsDone");  /* logged before the verdict is published */
@@ -386,6 +391,8 @@ do_selfstall(const cmd *c)
         res_aes = (int) cmd_i(c, 3);
         res_sha = (int) cmd_i(c, 4);
         entry_kind = c->t[5][0];
+        res_aes2 = c->n > 6 ? (int) cmd_i(c, 6) : res_aes;
+        res_sha2 = c->n > 7 ? (int) cmd_i(c, 7) : res_sha;
         ncalls = 2; /* the second call of every thread comes after its first returned: "later calls return the verdict" */
         find_status_word();
         __real_asm_set_self_tests_status(2);
